@@ -180,6 +180,19 @@ def run(ctx):
             except Exception:
                 pass
         corr(a, b)
+    # cross-class pairs, with universal schemas on either side
+    universal = [schema.any, schema.int | schema.any, schema.alias("U", schema.any), schema.any(schema.any, schema.none)]
+    others = [schema.int, schema.str, schema.none, schema.list, schema.dict, schema.bool, schema.float, schema.bytes,
+              schema.list(schema.any), schema.dict({"a": schema.any}), schema.alias("U", schema.int)]
+    for a in universal + others:
+        for b in universal + others:
+            ctx.count("cross_class_pairs")
+            r1, r2 = eq(a, b), eq(b, a)
+            if r1 is not r2:
+                ctx.violation("== is not symmetric", a=repr(a), b=repr(b), results=[repr(r1), repr(r2)], py_a=a, py_b=b)
+            if r1 is True and type(a) is not type(b):
+                ctx.violation("schemas of different types compare equal", a=repr(a), b=repr(b), py_a=a, py_b=b)
+            corr(a, b)
     fn = schema.float(nan)
     if eq(fn, fn) is not True:
         ctx.violation("a schema is not equal to itself", schema=repr(fn), py_a=fn)
